@@ -403,8 +403,11 @@ func c06Guard(r *vk.Run, sig func(cls string) string, id string, wit func() inte
 		if e := recover(); e != nil {
 			panicked = true
 			cls := "panic"
-			if re, ok := e.(runtime.Error); ok && strings.Contains(re.Error(), "fault address") {
-				cls = "over-read"
+			// with SetPanicOnFault the runtime error of a fault carries the faulting address
+			if re, ok := e.(runtime.Error); ok {
+				if a, ok := re.(interface{ Addr() uintptr }); ok && a.Addr() != 0 {
+					cls = "over-read"
+				}
 			}
 			st := string(debug.Stack())
 			if i := strings.Index(st, "panic("); i > 0 {
@@ -602,7 +605,7 @@ func TestVerifC06(t *testing.T) {
 		}
 	}
 
-	n := r.N(25000, 4000000)
+	n := r.N(16000, 3000000)
 	r.Cases("rand", n, func(i int, id string, rng *vk.Rand) {
 		seeds := fixed
 		if rng.Chance(1, 2) {
